@@ -44,8 +44,10 @@ type c20file interface {
 	index.ReadWriteSeekCloser
 }
 
-func c20Exec(batch uint32, realFile bool, universe [][]byte, trace []int) (key, class, vio string) {
-	nU := len(universe)
+// c20Exec runs one operation sequence. The last pre hashes of universe are not operations: they are
+// added and flushed before the sequence starts (a populated table as the starting state).
+func c20Exec(batch uint32, realFile bool, universe [][]byte, pre int, trace []int) (key, class, vio string) {
+	nU := len(universe) - pre
 	opFlush, opReopen := nU, nU+1
 	var mf *stores.MemFile
 	var f *os.File
@@ -97,13 +99,27 @@ func c20Exec(batch uint32, realFile bool, universe [][]byte, trace []int) (key, 
 	}
 	flushed := map[int]bool{}
 	pending := []int{}
+	if pre > 0 {
+		for k := nU; k < len(universe); k++ {
+			if err := hs.Add(append([]byte{}, universe[k]...)); err != nil {
+				return "", "error", "prelude Add: " + err.Error()
+			}
+			flushed[k] = true
+		}
+		if err := hs.Flush(); err != nil {
+			return "", "error", "prelude Flush: " + err.Error()
+		}
+	}
 	describe := func(i int) string {
 		var sb strings.Builder
+		if pre > 0 {
+			fmt.Fprintf(&sb, "(%d hashes %02x..%02x%02x to %02x..%02x%02x flushed first) ", pre, universe[nU][0], universe[nU][14], universe[nU][15], universe[len(universe)-1][0], universe[len(universe)-1][14], universe[len(universe)-1][15])
+		}
 		for j, op := range trace[:i+1] {
 			if j > 0 {
 				sb.WriteString(" ")
 			}
-			sb.WriteString(c20OpName(universe, op))
+			sb.WriteString(c20OpName(universe[:nU], op))
 		}
 		return sb.String()
 	}
@@ -181,6 +197,7 @@ func c20Exec(batch uint32, realFile bool, universe [][]byte, trace []int) (key, 
 	sort.Ints(ks)
 	for _, k := range ks {
 		kb.WriteByte(byte(k))
+		kb.WriteByte(byte(k >> 8))
 	}
 	return kb.String(), "", ""
 }
@@ -252,6 +269,40 @@ func c20OpName(universe [][]byte, op int) string {
 	}
 }
 
+// c20Preloaded: a table that already holds a contiguous run of pre entries with first byte 0x80,
+// then short sequences over six hashes placed below, just below, inside, just above and above that
+// run: insertions shift long runs of stored entries (block-wise moves, file growth).
+func c20Preloaded(name string, batch uint32, pre int, depth map[string]int) *mc.Harness {
+	mk := func(first byte, t14, t15 byte) []byte {
+		h := make([]byte, 16)
+		h[0], h[14], h[15] = first, t14, t15
+		return h
+	}
+	u := [][]byte{mk(0x00, 0, 0), mk(0x7f, 0, 5), mk(0x80, 0, 0), mk(0x80, byte((2*(pre/2)+3)>>8), byte(2*(pre/2)+3)), mk(0x80, 0xff, 0xff), mk(0xff, 0, 0)}
+	for i := 0; i < pre; i++ {
+		v := 2*i + 2
+		u = append(u, mk(0x80, byte(v>>8), byte(v)))
+	}
+	nOps := len(u) - pre
+	spec := func(d int) *mc.BFSSpec {
+		return &mc.BFSSpec{
+			NumOps:   nOps + 2,
+			MaxDepth: d,
+			Exec:     func(tr []int) (string, string, string) { return c20Exec(batch, false, u, pre, tr) },
+			OpName:   func(op int) string { return c20OpName(u[:nOps], op) },
+		}
+	}
+	return &mc.Harness{
+		Name:   name,
+		Budget: map[string]time.Duration{"quick": 40 * time.Second, "thorough": 8 * time.Minute},
+		InProc: func(r *mc.Run) { mc.BFS(r, spec(depth[r.Tier])) },
+		ReplayTrace: func(tr []int) (string, string) {
+			_, c, v := c20Exec(batch, false, u, pre, tr)
+			return c, v
+		},
+	}
+}
+
 func c20Harness(name string, batch uint32, realFile bool, nU int, depth map[string]int) *mc.Harness {
 	u := c20Universe[:nU]
 	if nU < len(c20Universe) {
@@ -262,7 +313,7 @@ func c20Harness(name string, batch uint32, realFile bool, nU int, depth map[stri
 		return &mc.BFSSpec{
 			NumOps:   len(u) + 2,
 			MaxDepth: d,
-			Exec:     func(tr []int) (string, string, string) { return c20Exec(batch, realFile, u, tr) },
+			Exec:     func(tr []int) (string, string, string) { return c20Exec(batch, realFile, u, 0, tr) },
 			OpName:   func(op int) string { return c20OpName(u, op) },
 		}
 	}
@@ -273,7 +324,7 @@ func c20Harness(name string, batch uint32, realFile bool, nU int, depth map[stri
 			mc.BFS(r, spec(depth[r.Tier]))
 		},
 		ReplayTrace: func(tr []int) (string, string) {
-			_, c, v := c20Exec(batch, realFile, u, tr)
+			_, c, v := c20Exec(batch, realFile, u, 0, tr)
 			return c, v
 		},
 	}
@@ -287,6 +338,7 @@ func init() {
 			"(first bytes 00,01,7f,ff; equal first bytes; neighbours differing in the last or a middle byte), batch sizes 1,2,3,1024; " +
 			"a state is the raw file bytes + pending batch + model set; every transition is executed on the implementation and compared with a Go map " +
 			"(Has for every universe hash after every step; sortedness and fan-out of the raw file whenever nothing is pending). " +
+			"plus the same search started from a table that already holds a contiguous run of 33 / 100 / 300 flushed entries, over six hashes placed below, just below, inside, just above and above that run (insertions shift long runs of stored entries). " +
 			"distinct_nontrivial = distinct states reached",
 		Assumptions: []string{
 			"hashes outside the 10-value universe behave like universe hashes with the same first-byte / ordering relations",
@@ -301,6 +353,9 @@ func init() {
 			c20Harness("bfs-u7-batch2-deep", 2, false, 7, map[string]int{"quick": 12, "thorough": 16}),
 			c20Harness("bfs-u7-batch1024-deep", 1024, false, 7, map[string]int{"quick": 6, "thorough": 9}),
 			c20Harness("bfs-realfile-batch2", 2, true, 7, map[string]int{"quick": 5, "thorough": 7}),
+			c20Preloaded("bfs-preloaded33-batch2", 2, 33, map[string]int{"quick": 5, "thorough": 7}),
+			c20Preloaded("bfs-preloaded100-batch1024", 1024, 100, map[string]int{"quick": 5, "thorough": 7}),
+			c20Preloaded("bfs-preloaded300-batch3", 3, 300, map[string]int{"quick": 4, "thorough": 6}),
 		},
 	})
 }
